@@ -1,6 +1,7 @@
 package main
 
 import (
+	"encoding/binary"
 	"fmt"
 	"io"
 	"os"
@@ -127,4 +128,79 @@ func copyDir(src, dst string) error {
 		}
 	}
 	return nil
+}
+
+// vlogSize: size of the (single) value log file of a Badger directory; -1 when there is not exactly one.
+func vlogSize(dir string) int64 {
+	m, _ := filepath.Glob(filepath.Join(dir, "*.vlog"))
+	if len(m) != 1 {
+		return -1
+	}
+	fi, err := os.Stat(m[0])
+	if err != nil {
+		return -1
+	}
+	return fi.Size()
+}
+
+// vlogCuts: offsets in (from, to) at which the value log can end if the process is killed while the bytes of
+// one store write are being appended: every entry boundary strictly inside the region (badger v1.6.0 entry =
+// header (key length u32, value length u32, expiresAt u64, meta, user meta: 18 bytes) + key + value + crc32; a
+// transaction is its entries followed by a commit-marker entry, and on replay the entries of a transaction whose
+// marker is missing are discarded) plus one torn entry (a cut in the middle of the first entry). Nil when the
+// region does not parse as a whole number of entries.
+func vlogCuts(dir string, from, to int64) []int64 {
+	m, _ := filepath.Glob(filepath.Join(dir, "*.vlog"))
+	if len(m) != 1 {
+		return nil
+	}
+	f, err := os.Open(m[0])
+	if err != nil {
+		return nil
+	}
+	defer f.Close()
+	data := make([]byte, to-from)
+	if _, err := f.ReadAt(data, from); err != nil {
+		return nil
+	}
+	res := []int64{}
+	commits := []int64{} // boundaries that follow a commit marker strictly inside the region: the store method is not one transaction
+	off := int64(0)
+	n := int64(len(data))
+	for off+18 <= n {
+		klen := int64(binary.BigEndian.Uint32(data[off : off+4]))
+		vlen := int64(binary.BigEndian.Uint32(data[off+4 : off+8]))
+		fin := data[off+16]&(1<<7) != 0 // bitFinTxn
+		off += 18 + klen + vlen + 4
+		if off < n {
+			res = append(res, from+off)
+			if fin {
+				commits = append(commits, from+off)
+			}
+		}
+	}
+	if off != n {
+		return nil
+	}
+	if n > 40 {
+		res = append(res, from+n/2)
+	}
+	// a cut after an inner commit marker is the state that differs from both "before" and "after" the write:
+	// such cuts get three quarters of the weight when there are any
+	for i := 0; len(commits) > 0 && i < 3*len(res); i++ {
+		res = append(res, commits[i%len(commits)])
+	}
+	return res
+}
+
+// copyDirCut: copyDir, with the value log truncated at offset off.
+func copyDirCut(src, dst string, off int64) error {
+	if err := copyDir(src, dst); err != nil {
+		return err
+	}
+	m, _ := filepath.Glob(filepath.Join(dst, "*.vlog"))
+	if len(m) != 1 {
+		return fmt.Errorf("no single value log")
+	}
+	return os.Truncate(m[0], off)
 }
